@@ -143,7 +143,7 @@ pub fn execute(case: &CaseLine, h: &[Vec<Value>], seed: u64) -> Result<(Vec<u8>,
     }
     let shared = Arc::new(Mutex::new(Shared { wire: bytes, gates: vec![], close: false, fault: Fault { k: "none".into(), at: 0 }, in_read: 0,
         rcuts: BTreeSet::new(), rpend: HashSet::new(), out: Vec::new(), wcuts, wpend, self_wake: false, stop_at: HashSet::new(), stop_now: false,
-        parked_on_read: false, write_failed: false, wrote_after_failure: false, reads: 0, writes: 0, random: None, events: Vec::new() }));
+        parked_on_read: false, write_failed: false, wrote_after_failure: false, reads: 0, writes: 0, random: None, events: Vec::new(), unsteered: None }));
     let mut config = Config::with_conns(MAX_CONNS.try_into().expect("nz"));
     config.buffer_size = 64;
     let runner = config.async_runner();
